@@ -77,18 +77,22 @@ CApply(c, o) ==
 (***************************************************************************)
 (* Abs: what the property says about a finished raster (a sequence of 0/1, *)
 (* one entry per step, for one element whose intensity class is xc)        *)
-(*   xc: "zero" intensity exactly 0;  "pos" anything positive;             *)
+(*   xc: "zero" intensity exactly 0;  "pos" anything positive;  "tiny"      *)
+(*       ("pint" only) positive but with an expected interval beyond 10^9  *)
+(*       steps: a Poisson variate with that mean exceeds any horizon;      *)
 (*       for "bern" also "one" (probability clamps to 1) and "near"        *)
 (*       (probability within rounding of 1: outcome left open)             *)
 (***************************************************************************)
 Spikes(ras) == {i \in 1..Len(ras) : ras[i] = 1}
 AbsLength(c, ras) == Len(ras) = c.S /\ \A i \in 1..Len(ras) : ras[i] \in {0, 1}
 AbsSilent(xc, ras) == xc = "zero" => Spikes(ras) = {}
+\* extension clause NoForcedSpike: a rate whose expected interval dwarfs the horizon gives no spike
+AbsNoForced(xc, ras) == xc = "tiny" => Spikes(ras) = {}
 \* two spikes of one element are never closer than the refractory period
 GapOK(c, ras) == \A i, j \in Spikes(ras) : i < j => (j - i) * c.D >= c.r
 AbsMinGap(c, ras) == HasRefrac(c) => GapOK(c, ras)
 AbsSaturated(c, xc, ras) == (c.kind = "bern" /\ xc = "one") => Spikes(ras) = 1..Len(ras)
-AbsOK(c, xc, ras) == AbsLength(c, ras) /\ AbsSilent(xc, ras) /\ AbsMinGap(c, ras) /\ AbsSaturated(c, xc, ras)
+AbsOK(c, xc, ras) == AbsLength(c, ras) /\ AbsSilent(xc, ras) /\ AbsNoForced(xc, ras) /\ AbsMinGap(c, ras) /\ AbsSaturated(c, xc, ras)
 
 (***************************************************************************)
 (* Mech: the schedules                                                     *)
@@ -107,6 +111,7 @@ Draws(c, xc, online) ==
        ELSE IF c.comp /\ ~Compat(c.r, c.M) THEN 0..c.r
        ELSE Min(c.r, INF(c))..INF(c)      \* every draw beyond the horizon is represented by INF
   ELSE IF xc = "zero" THEN {0}
+       ELSE IF xc = "tiny" THEN {INF(c)}
        ELSE (IF online THEN 0 ELSE 1)..INF(c)
 
 \* number of draws per element of the offline encoders
@@ -116,15 +121,17 @@ NDraws(c) ==
   ELSE c.S + 2
 
 \* ---- offline: cumulative sum, floor, clamp to S, scatter, trim
-Row(c, cum) == Min(cum \div Unit(c), c.S)
+\* exp: clamp to row S (dropped);  pint: the scatter target has S + 2 rows, row 0 (zero-rate
+\* elements) and row S + 1 (everything beyond the horizon) are dropped
+Row(c, cum) == IF c.kind = "exp" THEN Min(cum \div Unit(c), c.S) ELSE Min(cum, c.S + 1)
 OffInit(c) == [m |-> "off", cum |-> 0, k |-> 0, pos |-> 0, hits |-> {}]
 OffPlace(c, e, d) ==
   LET cum2 == Min(e.cum + d, INF(c)) IN
   [m |-> "off", cum |-> cum2, k |-> e.k + 1, pos |-> Row(c, cum2), hits |-> e.hits \cup {Row(c, cum2)}]
 OffNext(c, xc, e) == {OffPlace(c, e, d) : d \in Draws(c, xc, FALSE)}
 \* rows kept after trimming: exp rows 0..S-1 (row S collects the spill-over and is dropped);
-\* pint rows 1..S (row 0 collects zero-rate elements and is dropped; the clamp puts every
-\* position beyond the horizon on row S, which is KEPT: named deviation ClampPilesOnLastStep)
+\* pint rows 1..S.  (The code used to clamp to row S, which is kept: every positive-rate element
+\* then spiked at the last step whatever its rate - defect D33, repaired by clamping to S + 1.)
 Shift(c) == IF c.kind = "exp" THEN 1 ELSE 0
 OffRaster(c, e) == [i \in 1..c.S |-> IF (i - Shift(c)) \in e.hits THEN 1 ELSE 0]
 
